@@ -87,8 +87,14 @@ def gen_cases(rng, ncases, big_every):
         n = rng.choice([0, 1, 2, 5, 12, 40]) if not big else rng.choice([3, 3000])
         lines.append("case %d" % k)
         cs = []
+        # every seventh case: a list made (almost) only of empty comments - each costs just its 4-byte length in the header
+        sparse = (k % 7 == 5)
+        if sparse:
+            n = rng.choice([2, 3, 40, 1000, 2000])
         for i in range(n):
             c = gen_comment(rng, big and n < 100 and i == 0)
+            if sparse:
+                c = b"" if (i % 3 or rng.chance(1, 2)) else rng.choice([b"A=", b"\0", b"x"])
             kind = rng.below(4)
             if kind == 0 and b"\0" not in c:
                 lines.append("a " + hx(c))
